@@ -21,7 +21,8 @@ def gen_case(rng):
     B = int(rng.integers(1, 4))
     def coef():
         return np.array([rng.choice([0.0, 1.0, rng.uniform(0, 1)]) for _ in range(B)], dtype=float)
-    return dict(nt=nt, nph=nph, scale=scale, B=B, s=coef(), a=coef())
+    # the incoming sampling's weights on ANOTHER scale than the outgoing one's (weights need not be normalised)
+    return dict(nt=nt, nph=nph, scale=scale, B=B, s=coef(), a=coef(), src_scale=float(rng.choice([1.0, 0.159, 3.7])))
 
 
 def run_case(ctx, case, lines, meta):
@@ -33,6 +34,7 @@ def run_case(ctx, case, lines, meta):
     S = pf.FrequencyData(case['s'], freqs)
     A = pf.FrequencyData(case['a'], freqs)
     src, rec = samp.copy(), samp.copy()
+    src.weights = np.array(src.weights, dtype=float) * float(case.get('src_scale', 1.0))
     w_raw = np.array(rec.weights, dtype=float).copy()
     brdf = sp.brdf.create_from_scattering(src, rec, S, A)
     data = np.real(brdf.freq)                      # (n, n, B)
